@@ -100,6 +100,7 @@ def opBackoff : List String → Option String
 
 def parseOutcome : String → Option Backoff.Outcome
   | "ok" => some .ok | "perm" => some .perm | "trans" => some .trans | "open" => some .breakerOpen
+  | "transc" => some .transCancel
   | _ => none
 
 def resultStr : Backoff.RetryResult → String
